@@ -25,7 +25,7 @@ open Lungo.C05
 #print axioms step_inv
 #print axioms search_ce_sound
 #print axioms search_ce_image
-#print axioms search_expected_safe_0
-#print axioms search_expected_safe_1
-#print axioms search_expected_safe_2
+#print axioms no_rename_keeps_old
+#print axioms fsInit_holds
+#print axioms search_no_false_alarm
 #print axioms search_expected_safe
